@@ -42,7 +42,7 @@ ASSUMPTIONS = ["locking enabled (hooks.config.site.lockDirectoryBase is the "
                "the elements of a command's path are distinct (Eups.setEupsPath removes duplicates)"]
 
 CORPUS = os.path.join(common.VERIF, "corpus", "C09")
-WORKERS = 6
+WORKERS = 4
 
 
 def P(kind, lp=None, tries=0, explicit=True, user=None):
@@ -259,6 +259,58 @@ def cmd_cases(rng, nrandom):
             sched += [rng.randrange(n)] * rng.randint(1, 8)
         cases.append({"procs": procs, "sched": sched, "ndirs": nd, "src": "cmd%d" % n})
     return cases
+
+
+def cmdline_req(sp, base):
+    """the model's reading of one command line (Model/LockCmd.lean): command word(s), -h, --nolocks / setup -N, locking
+    enabled, $EUPS_PATH, -Z, -z"""
+    argv = sp["argv"]
+    w = cmd_words(argv)
+    z = dbz = None
+    for j, a in enumerate(argv[:-1]):
+        if a in ("-Z", "--database", "--with-eups"):
+            z = [int(x[2:]) for x in argv[j + 1].split(":")]
+        elif a in ("-z", "--select-db"):
+            dbz = int(argv[j + 1][5:])
+    name = " ".join(w[:2]) if w[0] in ("admin", "distrib") and len(w) > 1 else w[0]
+    return {"m": "c09", "op": "cmdline", "cmd": name, "help": "-h" in w or "--help" in w,
+            "nolocks": "--nolocks" in w or (w[0] == "setup" and "-N" in w), "enabled": base != "none",
+            "env_path": list(sp.get("env_path", sp.get("path", [0]))), "Z": z, "z": dbz}
+
+
+def cmd_table_check(ctx):
+    """The registered lock type of EVERY command of the real command table (eups.cmd._cmdLookup, enumerated in a child)
+    against the model's table (Model/LockCmd.lean): same commands, same lock types; and the property's sentence on the
+    real table: a command the harness knows to update a stack is registered exclusive."""
+    def real_table():
+        common.import_eups()
+        import eups.cmd
+        import eups.lock as lock
+        return {k: {lock.LOCK_EX: "E", lock.LOCK_SH: "S", None: None}.get(v[1], "?") for k, v in eups.cmd._cmdLookup.items()}
+    res = common.in_child(real_table)
+    if res[0] != "ok":
+        raise common.InfraError("cannot read the command table: %r" % (res,))
+    real = res[1]
+    model = {e["name"]: e for e in ctx.lean.ask({"m": "c09", "op": "cmdtable"})}
+    names = sorted(set(real) | (set(model) - {"setup"}))
+    updaters = {"declare", "undeclare", "remove", "admin buildCache", "admin clearCache", "admin clearServerCache",
+                "distrib clean", "distrib create", "distrib declare", "distrib install"}
+    for nm in names:
+        iv = real.get(nm, "not registered")
+        mv = model[nm]["lock"] if nm in model else "not in the model"
+        ctx.case(key={"cmdtable": nm}, nontrivial=True, sample=None)
+        ctx.hist("src=cmdtable")
+        if iv != mv:
+            ctx.disagree("cmd_lock_table", {"command": nm}, iv, mv, note="registered lock type of '%s'" % nm)
+        if nm in updaters and iv != "E":
+            ctx.fail("updater_registered_exclusive", {"command": nm}, iv, mv,
+                     note="'%s' updates a stack and is registered with lock type %r" % (nm, iv), finding=None)
+        if nm in model and model[nm]["updates"] != (nm in updaters):
+            ctx.disagree("cmd_updates_table", {"command": nm}, nm in updaters, model[nm]["updates"],
+                         note="harness and model differ on whether '%s' updates a stack" % nm)
+    ctx.hist("cmdtable_commands", len(names))
+    if len(names) < 30:
+        raise common.InfraError("command table has only %d entries" % len(names))
 
 
 def residue_class(case, r):
@@ -538,6 +590,35 @@ def evaluate(ctx, cases):
     impl = parallel_map(run_case, cases, workers=WORKERS)
     reqs = [model_req(c, r["executed"]) for c, r in zip(cases, impl)]
     answers = ctx.lean.ask_many(reqs)
+    # the lock bracket of every real command line, as the model has it
+    creqs = [(k, i, cmdline_req(sp, c.get("base", "default"))) for k, c in enumerate(cases)
+             for i, sp in enumerate(c["procs"]) if sp.get("argv") is not None]
+    cans = ctx.lean.ask_many([q for _k, _i, q in creqs])
+    for (k, i, q), ca in zip(creqs, cans):
+        c, r = cases[k], impl[k]
+        held = (r.get("held") or [None] * len(c["procs"]))[i]
+        kinds = (r.get("held_kinds") or [None] * len(c["procs"]))[i]
+        inp = {"argv": c["procs"][i]["argv"], "env_path": c["procs"][i].get("env_path")}
+        if "bad-op" in ca:
+            ctx.disagree("cmd_bracket", inp, None, ca, note="the model does not know this command line")
+            continue
+        if held is not None and kinds is not None:
+            iv = {"kind": (sorted(set(kinds))[0] if len(set(kinds)) == 1 else (None if not kinds else sorted(set(kinds)))),
+                  "stacks": sorted(held)}
+            mv = {"kind": ca["kind"] if ca["stacks"] else None, "stacks": sorted(ca["stacks"])}
+            ctx.hist("cmd_bracket_compared")
+            if iv != mv:
+                ctx.disagree("cmd_bracket", inp, iv, mv, note="lock kind and locked stacks of the command in its body")
+        ch = r.get("stack_changed")
+        if ch and len(c["procs"]) == 1 and any(ch):
+            ctx.hist("cmd_changed_a_stack")
+            if not ca["updates"]:
+                ctx.disagree("cmd_updates", inp, True, False, note="the command changed stack(s) %r; the model says it does not update" % (
+                    [d for d, x in enumerate(ch) if x],))
+            for d, x in enumerate(ch):
+                if x and not (held is not None and d in held and kinds[held.index(d)] == "E"):
+                    ctx.fail("updated_stack_locked", inp, {"changed": ch, "held": held, "kinds": kinds}, ca,
+                             note="the command changed stack %d without holding an exclusive lock on it" % d, finding=None)
     for c, r, a in zip(cases, impl, answers):
         iv, mv = impl_view(r), model_view(a)
         inp = {"procs": c["procs"], "sched": r["executed"], "base": c.get("base", "default")}
@@ -684,6 +765,7 @@ def run(ctx):
     cases = corpus_cases()
     ctx.hist("corpus", len(cases))
     evaluate(ctx, cases)
+    cmd_table_check(ctx)
     evaluate(ctx, name_cases())
     # all distinct interleavings of two processes (transition cover of the model's state graph)
     two = explore_cases(ctx, two_proc_configs(), "cover2")
@@ -710,7 +792,7 @@ def run(ctx):
             ctx.note("time budget reached inside the random schedules")
             break
         evaluate(ctx, batch[k:k + 600])
-    exploration_support(ctx, ctx.n(3, 4))
+    exploration_support(ctx, 4 if ctx.tier == "thorough" else 3)
     # report the most telling failures first: outside every known class, then the shortest schedules
     ctx.failures.sort(key=lambda f: (f["finding_class"] is not None, len(f["input"]["sched"])))
     if ctx.evaluations < 200 or ctx.histogram.get("overlapping", 0) < 0.3 * ctx.evaluations:
